@@ -20,7 +20,7 @@ PROP = 'C03'
 PROOF_MODULES = ['Ladybug.Props.C03']
 GREP_MODULES = ['Ladybug.Py', 'Ladybug.Model.Cal', 'Ladybug.Model.AP', 'Ladybug.Model.Group',
                 'Ladybug.Model.Stats', 'Ladybug.Proofs.C03Dict', 'Ladybug.Proofs.C03Cont',
-                'Ladybug.Proofs.C03Stats', 'Ladybug.Drv.C03', 'Ladybug.DrvCore']
+                'Ladybug.Proofs.C03Stats', 'Ladybug.Proofs.C03Samples', 'Ladybug.Drv.C03', 'Ladybug.DrvCore']
 RULE = ('correspondence: hourly collections built from plain numbers — continuous (whole-day periods: '
         'annual / partial / year-wrapping / wrapping inside one month, 12 timesteps, leap) and '
         'discontinuous (any hour window; datetimes = the period, a subset with holes, shuffled, '
